@@ -117,15 +117,26 @@ def parse(cmd: str):
 
 
 def printf_simple(fmt: str):
-    """Value of ``printf fmt`` when fmt only uses \\xHH escapes of mitmproxy's own encoding; None if the format contains
-    anything else printf interprets (%, other backslash sequences) -- then only a real shell decides."""
+    """Value of ``printf fmt`` (bash) when fmt only uses \\xHH, an escaped backslash and %% ; None if the format contains
+    anything else printf interprets (conversions, other backslash sequences, a leading option dash) -- then only a real
+    shell decides."""
+    if fmt.startswith("-"):
+        return None
     out = []
     i = 0
     while i < len(fmt):
         c = fmt[i]
         if c == "%":
+            if fmt[i + 1 : i + 2] == "%":  # "%%" prints one percent sign
+                out.append("%")
+                i += 2
+                continue
             return None
         if c == "\\":
+            if fmt[i + 1 : i + 2] == "\\":  # an escaped backslash prints one backslash
+                out.append("\\")
+                i += 2
+                continue
             if fmt[i + 1 : i + 2] == "x" and len(fmt) >= i + 4 and all(h in "0123456789abcdef" for h in fmt[i + 2 : i + 4]):
                 # bash consumes at most two hex digits
                 out.append(chr(int(fmt[i + 2 : i + 4], 16)))
